@@ -344,7 +344,7 @@ def inline_hoisted(tree, expected):
                         stores = sum(1 for n in own if isinstance(n, ast.Name) and n.id == t and isinstance(n.ctx, (ast.Store, ast.Del)))
                         if stores != 1 or any(t in alpha.free_names(n) for n in own if isinstance(n, alpha.SCOPES) and not isinstance(n, (ast.ListComp, ast.SetComp, ast.DictComp, ast.GeneratorExp))):
                             continue
-                        reads = {n.id for n in ast.walk(st.value) if isinstance(n, ast.Name)}
+                        reads = {n.id for n in ast.walk(st.value) if isinstance(n, ast.Name)} - {n.id for n in ast.walk(st.value) if isinstance(n, ast.Name) and isinstance(n.ctx, ast.Store)}
                         rest = body[i + 1:]
                         loads_total = sum(1 for n in own if isinstance(n, ast.Name) and n.id == t and isinstance(n.ctx, ast.Load))
                         for s in [x for r in rest for x in ast.walk(r)]:
